@@ -475,6 +475,15 @@ func condPassThrough(h *ssa.Function, depth int) int {
 		if strings.Contains(pkg, "cockroachdb/apd") && strings.HasPrefix(name, "Context.") {
 			return true
 		}
+		// the operation handed in as a function-typed parameter whose first parameter is the context
+		if prm, isP := call.Call.Value.(*ssa.Parameter); isP && !call.Call.IsInvoke() {
+			if sig, okS := prm.Type().Underlying().(*types.Signature); okS && sig.Params().Len() > 0 {
+				t := sig.Params().At(0).Type().String()
+				if strings.Contains(t, "apd") && strings.HasSuffix(t, "Context") {
+					return true
+				}
+			}
+		}
 		_, what := mutatedArg(&call.Call)
 		return strings.HasPrefix(what, "apd.Context.")
 	}
